@@ -60,7 +60,7 @@ PROPS['C10'] = {
     'bx': ['c10'],
     'rule': 'Verus verification conditions of unit parse (iterator contract against the exposed-stream spec).',
     'proved': ['MessageAttributesIter::next yields exactly exposed_from(bytes, 20, 0): everything up to and including the first integrity attribute, MI-SHA256 directly after MI, FINGERPRINT; hidden attributes are skipped',
-               'lemma_exposed_prefix_stable: exposed attributes before the first integrity attribute depend only on the bytes before its end'],
+               ],
     'bounded': ['lookups raw_attribute/has_attribute/attribute go through iterator adaptors: BX'],
     'trusted': _PARSE_TRUST,
 }
@@ -81,4 +81,62 @@ PROPS['C01'] = {
     'proved': ['no panic / overflow / OOB / non-termination for AttributeHeader::parse, RawAttribute::from_bytes, MessageType::from_bytes, MessageHeader::from_bytes, Message::from_bytes, MessageAttributesIter::next for every byte string'],
     'bounded': ['check_attribute_types, Display/Debug, tracing argument expressions: BX only'],
     'trusted': _PARSE_TRUST,
+}
+
+_KX_TRUST = ['Kani 0.68 / CBMC 6.11 (soundness of the bounded model checker; loops unwound with unwinding assertions on)',
+             'tracing macros are no-ops in the Kani build (kx/tracing-stub) - drops exactly what rule R1 drops']
+_ATTR_K = ['k08_priority', 'k08_priority_new', 'k08_use_candidate', 'k08_ice_controlled', 'k08_ice_controlling', 'k08_ice_new',
+           'k_fingerprint', 'k09_fingerprint_xor', 'k08_message_integrity', 'k08_userhash', 'k08_xor_mapped_decode',
+           'k08_alternate_server_decode', 'k08_alternate_server_new', 'k08_password_algorithm', 'k08_error_code_pairs', 'k08_error_code_new', 'k_check_len']
+
+PROPS['C19'] = {
+    'level': 'proof',
+    'vx': [{'unit': 'parse', 'functions': ['MessageType :: from_bytes', 'get_type', 'transaction_id', 'MessageHeader :: from_bytes', 'From<u128>']}],
+    'kx': ['k19_class_method', 'k19_from_bytes_all', 'k19_tid_mask', 'k17_header_from_bytes'],
+    'bx': ['c19'],
+    'rule': 'Kani complete harnesses (loop-free / fixed trip count over full-domain symbolic inputs) + Verus VCs of unit parse.',
+    'proved': ['all 4x4096 (class, method): type field == RFC 8489 s5 interleaving written bit by bit; class()/method() invert it; wire form round-trips',
+               'all 65536 field values (and slice lengths 0..4): refused NotStun <=> top two bits set; every other value decodes to a unique (class, method)',
+               'TransactionId::from(x) == x mod 2^96 for all u128; header decoder reads the id from bytes 8..20; Message::transaction_id reads bytes 8..20 (Verus)'],
+    'bounded': ['header writer (MessageBuilder::write_into) places cookie and id: BX', 'generated ids fit in 96 bits: BX sampling (rand is outside every contract; follows from the mask)'],
+    'trusted': _PARSE_TRUST + _KX_TRUST,
+}
+PROPS['C13'] = {
+    'level': 'proof',
+    'kx': ['k13_xor_v4', 'k13_xor_v6', 'k08_xor_mapped_decode'],
+    'bx': ['c13'],
+    'rule': 'Kani complete harnesses over all addresses x ports x transaction ids (bytewise_xor! loops have fixed trip counts 4/16, unwound with assertions).',
+    'proved': ['IPv4: all 2^32 addr x 2^16 ports x 2^128 tid inputs: new(a,t).addr(t)==a; wire value == 0,1,port^0x2112,ip^cookie; wire round trip',
+               'IPv6: all 2^128 addr x ports x tids: wire value ip ^ (cookie || tid); round trip; a different tid decodes to a different address',
+               'decoder accepts exactly family 1 / 8 bytes and family 2 / 20 bytes of type 0x0020'],
+    'bounded': [],
+    'trusted': _KX_TRUST + ['SocketAddr equality is (ip, port); flowinfo/scope_id of IPv6 socket addresses are not carried by the wire format and are outside the property'],
+}
+PROPS['C16'] = {
+    'level': 'exploration',
+    'kx': ['k16_comprehension_required'],
+    'bx': ['c16'],
+    'rule': 'Kani complete harness for the classification; BX enumeration for check_attribute_types (iterator adaptors + MessageBuilder are outside both verifiers).',
+    'proved': ['comprehension_required(t) <=> t < 0x8000 for all 65536 types (Kani, complete)'],
+    'bounded': ['check_attribute_types verdict / response contents vs RFC 8489 s6.3.1 oracle: BX (bounded)'],
+    'trusted': _KX_TRUST,
+}
+PROPS['C08'] = {
+    'level': 'exploration',
+    'kx': _ATTR_K,
+    'bx': ['c08'],
+    'rule': 'Kani complete harnesses for the ten fixed-size attribute types (symbolic type code, 0..=40 symbolic value bytes); BX for the nine variable-length types.',
+    'proved': ['PRIORITY, USE-CANDIDATE, ICE-CONTROLLED, ICE-CONTROLLING, FINGERPRINT, MESSAGE-INTEGRITY, USERHASH, XOR-MAPPED-ADDRESS, ALTERNATE-SERVER, PASSWORD-ALGORITHM: decode Ok <=> RFC type code and RFC value encoding; other type => WrongAttributeImplementation; getters = encoded fields; encode = RFC layout; decode(encode(v)) = v; re-encode stable',
+               'ERROR-CODE class/number arithmetic on all 65536 byte pairs; ErrorCode::new accepts exactly 300..=699', 'check_len for all lengths and range shapes'],
+    'bounded': ['USERNAME, REALM, NONCE, SOFTWARE, ALTERNATE-DOMAIN, ERROR-CODE reason, UNKNOWN-ATTRIBUTES, PASSWORD-ALGORITHMS, MESSAGE-INTEGRITY-SHA256: BX, all lengths 0..=800 with ASCII / multi-byte UTF-8 / invalid UTF-8 fillers'],
+    'trusted': _KX_TRUST,
+}
+PROPS['C12'] = {
+    'level': 'exploration',
+    'kx': ['k12_raw_attribute'] + [k for k in _ATTR_K if k not in ('k_check_len', 'k08_error_code_new')],
+    'bx': ['c12'],
+    'rule': 'Kani harnesses: helper check_writers (in-place writer vs RFC layout vs raw conversion, 0xAA-filled oversize buffer, every shorter buffer) on every decodable value of the fixed-size types; BX for variable-length types and builders.',
+    'proved': ['fixed-size types: write_into == RFC layout == to_raw(); exactly padded_len bytes written, declared length == value length, padding zero, nothing beyond touched; every shorter destination => TooSmall{expected, actual}, destination untouched'],
+    'bounded': ['raw attributes with value length 0..=8 (Kani, bounded)', 'variable-length attribute types 0..=763 B, MessageBuilder build/write_into/into_owned/clone: BX'],
+    'trusted': _KX_TRUST,
 }
